@@ -181,6 +181,12 @@ def static_classes(prog):
     for n in ast.walk(fn):
         if isinstance(n, ast.Try) and n.orelse and _own_jump(n.body, False):
             cls['jump_in_try_body_with_else_clause'] = True
+    # (19) `!=` on an object with its own __ne__: under EQUALITY_OPERATORS the comparison is lowered to
+    #      ag__.not_eq = not_(eq(a, b)), so __eq__ is called instead of __ne__ and the result is a negated bool
+    for n in ast.walk(fn):
+        if isinstance(n, ast.Compare) and any(isinstance(o, ast.NotEq) for o in n.ops) and \
+                any(isinstance(x, ast.Name) and x.id == 'EQ1' for x in [n.left] + n.comparators):
+            cls['not_equal_on_object_with_custom_ne'] = True
     # (16) nonlocal/global declared inside a nested block of a (nested) function rather than at its top level: the
     #      parallel-block scope handling of activity analysis loses/misplaces the declaration
     for n in ast.walk(fn):
@@ -288,7 +294,7 @@ def classify(prog, mod, args, dec, static, orig_outcome=None, raised_at_del=Fals
     for k in ('global_assigned_in_converted_block', 'nonlocal_or_global_declared_in_nested_block', 'read_in_class_body', 'namedexpr_in_call_argument', 'call_in_return_annotation_of_nested_def', 'lambda_in_decorator_of_nested_def',
               'docstring_only_function_body',
               'raise_in_finally_over_jump', 'except_handler_binds_name', 'try_else_block_starts_with_if', 'chained_comparison_effectful_middle_operand',
-              'jump_in_try_body_with_else_clause'):
+              'jump_in_try_body_with_else_clause', 'not_equal_on_object_with_custom_ne'):
         if k in static:
             matches.append(k)
     opn = open_classes()
